@@ -48,7 +48,8 @@ def run(R):
                  "dynamic-voter proposals: spending UpdateSpendingPoolProposal is modelled and exercised (owner accounts only, no owner roles); the distribution / withdraw pool proposals are covered by the lifecycle theorems through the oracles only",
                  "councilor rank bookkeeping (OnCouncilorAct/Absent) and the average-slash argument of handlers are not modelled; durations and block counts stay below 2^31 (no int64/time.Duration wrap-around)",
                  "a panic inside EndBlocker (property C06; only with the earlier IsQuorum-error-panics shape) is observed as 'panic' and the block's writes are discarded; the model does the same",
-                 "UpdateSpendingPoolProposal.ValidateBasic (quorum within [0,1]) is modelled as in the current tree"]
+                 "UpdateSpendingPoolProposal.ValidateBasic (quorum within [0,1]) is modelled as in the current tree",
+                 "address rotation: only MsgRotateRecoveryAddress onto an address without actor record is exercised; content rewrites of slash-validator proposals (recovery, RefuteSlashingProposal), the automatic slash proposal of slashing.Jail and InitGenesis are pinned as writers (C08_lifecycle_writers_pinned) but outside the model"]
     if not R.gen("gen_govhandlers", "GovHandlers.v"):
         # the tree is outside the translator's fragment (already a broken obligation): fall back to the
         # last known shapes so that the spec checker can still look for a concrete failing input
@@ -56,7 +57,8 @@ def run(R):
         open(os.path.join(V.COQ, "Gen", "GovHandlers.v"), "w").write(
             "From Sekai Require Import Base.Prelude.\nDefinition durations_error_returned : bool := false.\n"
             "Definition router_apply_on_cache_written_iff_ok : bool := true.\n"
-            "Definition quorum_error_panics_flag : bool := false.\nDefinition dynamic_veto_from_allowed : bool := false.\n")
+            "Definition quorum_error_panics_flag : bool := false.\nDefinition dynamic_veto_from_allowed : bool := true.\n"
+            "Definition lifecycle_writers : list string := [].\n")
     R.coq_files(FILES)
     R.coq_property()
     R.audit()
